@@ -46,7 +46,7 @@ func isOverflowNumeral(t string) bool { return t == "1e999" || t == "9e999" || t
 func runC03(res *lib.Result, tier string, seed int64, args []string) error {
 	nProg, nMut, nSoup := 1500, 6, 1500
 	if tier == "thorough" {
-		nProg, nMut, nSoup = 60000, 10, 100000
+		nProg, nMut, nSoup = 15000, 8, 30000
 	}
 	res.Rule = "programs derived production by production from the reference grammar (valid by construction, random white space / comments / line ends between tokens, every numeral and string form), each with single-token mutants (delete, duplicate, swap, keyword substitution) classified valid/invalid by the Lean grammar oracle (S-ebnf recogniser), plus token soups and raw bytes; the real parser (CreateParser+BeginAnalyze) vs the Lean parser model (error count, error locations, whole AST with locations) and vs the oracle's accept bit; non-trivial = at least 3 tokens; distinct by source text"
 	drv, err := lib.StartDriver()
